@@ -9,6 +9,9 @@ COMMON_ASSUMPTIONS = [
 KANI_CONFIGS = {
     # std build of the crate (default features) with hooks
     'std': dict(name='std', cargo_flags=['--features', 'verif-hooks'], solver='minisat', kani_flags=['-Z', 'stubbing']),
+    # std build with CBMC's memory-leak check: only for harnesses that drop everything they built (unit K-LEAK)
+    'stdleak': dict(name='stdleak', cargo_flags=['--features', 'verif-hooks'], solver='minisat',
+                    kani_flags=['-Z', 'stubbing', '--cbmc-args', '--memory-leak-check']),
     # no_std build: hashbrown + libm
     'nostd': dict(name='nostd', cargo_flags=['--no-default-features', '--features', 'hashbrown,libm,verif-hooks'], solver='minisat',
                   thorough_only=False, kani_flags=['-Z', 'stubbing']),
@@ -57,7 +60,7 @@ UNITS = {
                    assumptions=SHIM_ASSUMPTIONS),
     'K-SEG': dict(engine='kani', jobs=10, files=['harness_segmented.rs'], support_files=['harness_raw.rs', 'gen.rs'],
                   module={'harness_segmented.rs': 'lru::segmented::verif_hooks::harness'},
-                  n=dict(quick=2, thorough=3), bound='each segment: length <= {N}, capacity in 1..={N}',
+                  n=dict(quick=2, thorough=2), bound='each segment: length <= {N}, capacity in 1..={N}',
                   timeout=dict(quick=1200, thorough=5400),
                   functions=[dict(function='SegmentedCache::' + f, file='src/lru/segmented.rs', line=0, props=['C01', 'C02', 'C03', 'C05', 'C07', 'C12', 'C13', 'C16', 'C17'])
                              for f in ['put', 'get', 'get_mut', 'peek', 'peek_mut', 'contains', 'remove', 'purge', 'len', 'cap', 'is_empty', 'move_to_protected',
@@ -66,7 +69,7 @@ UNITS = {
                   assumptions=SHIM_ASSUMPTIONS),
     'K-2Q': dict(engine='kani', jobs=6, files=['harness_two_queue.rs'], support_files=['gen.rs'],
                  module={'harness_two_queue.rs': 'lru::two_queue::verif_hooks::harness'},
-                 n=dict(quick=2, thorough=3), bound='size in 1..={N}, quota in 0..=size, ghost bound in 1..=size, each queue <= {N} entries',
+                 n=dict(quick=2, thorough=2), bound='size in 1..={N}, quota in 0..=size, ghost bound in 1..=size, each queue <= {N} entries',
                  timeout=dict(quick=1800, thorough=7200),
                  functions=[dict(function='TwoQueueCache::' + f, file='src/lru/two_queue.rs', line=0, props=['C01', 'C02', 'C03', 'C05', 'C08', 'C12', 'C13', 'C14'])
                             for f in ['put', 'get', 'get_mut', 'peek', 'peek_mut', 'contains', 'remove', 'purge', 'len', 'cap', 'is_empty', 'move_to_frequent',
@@ -74,7 +77,7 @@ UNITS = {
                  assumptions=SHIM_ASSUMPTIONS),
     'K-ARC': dict(engine='kani', jobs=5, files=['harness_adaptive.rs'], support_files=['gen.rs'],
                   module={'harness_adaptive.rs': 'lru::adaptive::verif_hooks::harness'},
-                  n=dict(quick=2, thorough=3), bound='size in 1..={N}, p in 0..=size, each of the four lists <= {N} entries',
+                  n=dict(quick=2, thorough=2), bound='size in 1..={N}, p in 0..=size, each of the four lists <= {N} entries',
                   timeout=dict(quick=1800, thorough=7200),
                   functions=[dict(function='AdaptiveCache::' + f, file='src/lru/adaptive.rs', line=0, props=['C01', 'C02', 'C03', 'C05', 'C09', 'C12', 'C13', 'C14'])
                              for f in ['put', 'replace', 'get', 'get_mut', 'peek', 'peek_mut', 'contains', 'remove', 'purge', 'len', 'cap', 'is_empty', 'move_to_frequent', 'partition',
@@ -99,7 +102,7 @@ UNITS = {
     'K-WTLFU': dict(engine='kani', jobs=6, files=['harness_wtinylfu.rs'], support_files=['gen.rs'],
                     module={'harness_wtinylfu.rs': 'lfu::wtinylfu::verif_hooks::harness'},
                     configs=['std', 'nostd'],
-                    n=dict(quick=2, thorough=3), bound='window, probationary, protected: length <= {N}, capacity in 1..={N}; sketch rows of 2, 4 or 8 counters, one-word doorkeeper with 1..2 probes, sample size <= 4',
+                    n=dict(quick=2, thorough=2), bound='window, probationary, protected: length <= {N}, capacity in 1..={N}; sketch rows of 2, 4 or 8 counters, one-word doorkeeper with 1..2 probes, sample size <= 4',
                     timeout=dict(quick=1800, thorough=7200),
                     functions=[dict(function='WTinyLFUCache::' + f, file='src/lfu/wtinylfu.rs', line=0, props=['C01', 'C02', 'C03', 'C05', 'C10', 'C12', 'C13', 'C16', 'C17'])
                                for f in ['put', 'get', 'get_mut', 'peek', 'peek_mut', 'contains', 'remove', 'purge', 'len', 'cap', 'is_empty',
@@ -112,8 +115,17 @@ UNITS = {
                         timeout=dict(quick=1800, thorough=3600),
                         functions=[dict(function=f, file='src/lfu/tinylfu.rs', line=0, props=['C05', 'C11'])
                                    for f in ['TinyLFUBuilder::finalize', 'Bloom::new', 'get_size', 'calc_size_by_wrong_positives', 'CountMinSketch::new (no_std build)', 'next_power_of_2']],
-                        assumptions=['CBMC models of f64 ln/ceil/floor are exact enough (unchecked)',
+                        assumptions=['contract assumed for the logarithm: ln(x) in [-745, 0) and not NaN for 0 < x < 1; ceil/floor/mul/div/casts are CBMC\'s exact IEEE models',
                                      'std CountMinSketch::new (SystemTime + StdRng seeding) is not executed; only its sizing arithmetic, shared with the no_std constructor, is']),
+    'K-LEAK': dict(engine='kani', jobs=6, files=['harness_raw_life.rs', 'harness_segmented.rs', 'harness_two_queue.rs', 'harness_adaptive.rs'],
+                   support_files=['gen.rs', 'harness_raw.rs'], match=r'_leakcheck$', configs=['stdleak'],
+                   module={'harness_raw_life.rs': 'lru::raw::verif_hooks::harness_life', 'harness_segmented.rs': 'lru::segmented::verif_hooks::harness',
+                           'harness_two_queue.rs': 'lru::two_queue::verif_hooks::harness', 'harness_adaptive.rs': 'lru::adaptive::verif_hooks::harness'},
+                   n=dict(quick=2, thorough=2), bound='each list <= {N} entries; 32 tracked object ids',
+                   timeout=dict(quick=2400, thorough=7200),
+                   functions=[dict(function=f, file='src/lru/*.rs', line=0, props=['C04', 'C03'])
+                              for f in ['RawLRU::{put, remove, remove_lru, purge, resize, drop}', 'SegmentedCache::{put, put_protected, drop}', 'TwoQueueCache::{put, drop}', 'AdaptiveCache::{put, replace, drop}']],
+                   assumptions=SHIM_ASSUMPTIONS + ['CBMC --memory-leak-check: every heap object allocated in the harness must be freed by the end (nodes, sentinels, index shim)']),
     'K-ITER': dict(engine='kani', files=['harness_raw_iter.rs'], support_files=['harness_raw.rs', 'gen.rs'],
                    module={'harness_raw_iter.rs': 'lru::raw::verif_hooks::harness_iter'},
                    n=dict(quick=2, thorough=3), bound='list length <= {N}+1, schedule of next/next_back of length {N}+3 (= len()+2 at full length)',
@@ -155,15 +167,15 @@ ALL_CACHES = ['K-RAW', 'K-SEG', 'K-2Q', 'K-ARC', 'K-WTLFU']
 PROPERTIES = {
     'C01': _P(ALL_CACHES + ['K-LIFE'], 'model_checking', KANI_LEVEL_TEXT + '. C01 is the conjunct "inv" of every operation contract of all five caches: resident count <= cap(), every partition within its bound, partitions pairwise key-disjoint, len()/is_empty() consistent with the view.', KANI_NOTE, T_KANI),
     'C02': _P(ALL_CACHES + ['K-LIFE', 'K-ITER'], 'model_checking', KANI_LEVEL_TEXT + '. C02: lookups/put/remove postconditions over the whole key->value view, with symbolic values unrelated to keys; borrowed-key lookups with K=Box<u8>,Q=u8 and K=[u8;2],Q=[u8].', KANI_NOTE + '; String/&str keys not instantiated', T_KANI),
-    'C03': _P(ALL_CACHES + ['K-LIFE', 'K-ITER', 'K-CB'], 'model_checking', KANI_LEVEL_TEXT + '. C03: CBMC pointer-validity/bounds/double-free/dealloc checks on every path of every harness, plus the well-formedness audit (second sentence of C03, literally) after every operation, incl. clone, purge, resize, drop and node hand-over between lists.', KANI_NOTE + '; Stacked/Tree-Borrows aliasing rules and lifetimes of returned references are out of reach', T_KANI),
-    'C04': _P(['K-LIFE', 'K-2Q', 'K-ARC', 'K-SEG', 'K-WTLFU'], 'model_checking', KANI_LEVEL_TEXT + '. C04: drop-counting ghost state (every key/value object has an id and a drop counter): after each RawLRU operation and after dropping the cache every object was dropped exactly once or is retained/handed back; composite caches: node hand-over contracts plus CBMC dealloc checks on drop harnesses.', KANI_NOTE + '; heap-leak detection for composite caches relies on the RawLRU-level accounting plus view equations (no allocator counting)', T_KANI),
-    'C05': _P(ALL_CACHES + ['K-LIFE', 'K-SLFU', 'K-SKETCH', 'K-TLFU-CTOR', 'V-ROW', 'V-BLOOM', 'V-TLFU', 'V-POW'], 'model_checking', 'mixed: constructor/builder contracts over the FULL argument domain (all usize sizes, all f64 ratios incl. NaN) are complete Kani proofs; LFU arithmetic (overflow, shifts, indices) is proved unbounded by Verus on the extracted functions; panic-freedom of list operations is ' + KANI_LEVEL_TEXT, KANI_NOTE + '; CBMC float model for floor/mul; ln/ceil accuracy (Bloom sizing) unchecked; fewer than 2^64 doorkeeper insertions; sizes <= 2^32', T_KANI + ' + ' + T_VERUS),
+    'C03': _P(ALL_CACHES + ['K-LIFE', 'K-ITER', 'K-CB', 'K-LEAK'], 'model_checking', KANI_LEVEL_TEXT + '. C03: CBMC pointer-validity/bounds/double-free/dealloc checks on every path of every harness, plus the well-formedness audit (second sentence of C03, literally) after every operation, incl. clone, purge, resize, drop and node hand-over between lists.', KANI_NOTE + '; Stacked/Tree-Borrows aliasing rules and lifetimes of returned references are out of reach', T_KANI),
+    'C04': _P(['K-LEAK', 'K-LIFE', 'K-2Q', 'K-ARC', 'K-SEG', 'K-WTLFU'], 'model_checking', KANI_LEVEL_TEXT + '. C04: drop-counting ghost state (every key/value object has an id and a drop counter): after each RawLRU operation and after dropping the cache every object was dropped exactly once or is retained/handed back; composite caches: node hand-over contracts plus CBMC dealloc checks on drop harnesses.', KANI_NOTE + '; heap-leak detection for composite caches relies on the RawLRU-level accounting plus view equations (no allocator counting)', T_KANI),
+    'C05': _P(ALL_CACHES + ['K-LIFE', 'K-SLFU', 'K-SKETCH', 'K-TLFU-CTOR', 'V-ROW', 'V-BLOOM', 'V-TLFU', 'V-POW'], 'model_checking', 'mixed: constructor/builder contracts over the FULL argument domain (all usize sizes, all f64 ratios incl. NaN) are complete Kani proofs; LFU arithmetic (overflow, shifts, indices) is proved unbounded by Verus on the extracted functions; panic-freedom of list operations is ' + KANI_LEVEL_TEXT, KANI_NOTE + '; CBMC float model for floor/mul; ln(x) in [-745,0) for 0<x<1 assumed (stub); fewer than 2^64 doorkeeper insertions; sizes <= 2^32', T_KANI + ' + ' + T_VERUS),
     'C06': _P(['K-RAW', 'K-LIFE'], 'model_checking', KANI_LEVEL_TEXT + '. C06: the view equations of every RawLRU method (exact order of the whole list after each call).', KANI_NOTE, T_KANI),
     'C07': _P(['K-SEG'], 'model_checking', KANI_LEVEL_TEXT + '. C07: SLRU contract of put/get/get_mut/put_protected/remove_lru_from_*/peek_*_from_* by key location.', KANI_NOTE, T_KANI),
     'C08': _P(['K-2Q'], 'model_checking', KANI_LEVEL_TEXT + '. C08: 2Q contract of put (frequent/recent/ghost/new), get, remove; victim rule transcribed from the statement; constructor contract over all sizes and f64 ratios is a complete proof.', KANI_NOTE + '; CBMC float model for floor/mul', T_KANI),
     'C09': _P(['K-ARC'], 'model_checking', KANI_LEVEL_TEXT + '. C09: ARC contract of put (T1/T2/B1/B2/new) with the p update formula and victim rule transcribed from the statement; 0 <= p <= size in the invariant; ghost trimming only constrained relationally.', KANI_NOTE, T_KANI),
     'C10': _P(['K-WTLFU'], 'model_checking', KANI_LEVEL_TEXT + '. C10: W-TinyLFU contract of put/get/get_mut/purge; the admission verdict is read from the real estimator in the pre-state (arbitrary sketch contents, seeds, doorkeeper).', KANI_NOTE + '; estimator instantiated small (rows <= 8 counters, one-word doorkeeper); its own contracts are C11', T_KANI),
-    'C11': _P(['V-ROW', 'V-BLOOM', 'V-TLFU', 'V-POW', 'K-SKETCH', 'K-TLFU-CTOR'], 'proof', 'deductive proof (Verus, unbounded in hashes, widths, sample sizes and history length): real TinyLFU/Bloom/CountMinRow bodies against step contracts, then an induction over arbitrary histories against the exact aged-count model (never under-counts, <= 16, exact for a single key, 0 after clear, reset schedule, no false negatives, comparisons). The four closure-using CountMinSketch functions are contracted (external_body) in Verus and discharged on the real bodies by Kani for row widths <= 8 counters: those leaf obligations are bounded.', 'trusted: Verus/Z3; vstd specs of Vec/slice; assume_specification for <[T]>::fill; KeyHasher is a function of its argument; Bloom::new yields 1 <= probes < 2048 for ratios in (0,1) (depends on ln/ceil accuracy, unchecked); < 2^64 doorkeeper insertions; sketch leaf functions bounded to width <= 8 (Kani); std sketch seeding not executed', T_VERUS + ' (leaf sketch functions: ' + T_KANI + ')'),
+    'C11': _P(['V-ROW', 'V-BLOOM', 'V-TLFU', 'V-POW', 'K-SKETCH', 'K-TLFU-CTOR'], 'proof', 'deductive proof (Verus, unbounded in hashes, widths, sample sizes and history length): real TinyLFU/Bloom/CountMinRow bodies against step contracts, then an induction over arbitrary histories against the exact aged-count model (never under-counts, <= 16, exact for a single key, 0 after clear, reset schedule, no false negatives, comparisons). The four closure-using CountMinSketch functions are contracted (external_body) in Verus and discharged on the real bodies by Kani for row widths <= 8 counters: those leaf obligations are bounded.', 'trusted: Verus/Z3; vstd specs of Vec/slice; assume_specification for <[T]>::fill; KeyHasher is a function of its argument; ln(x) in [-745, 0) for 0 < x < 1 (contract of the logarithm, supplied as a stub; the CBMC model of log is nondeterministic); < 2^64 doorkeeper insertions; sketch leaf functions bounded to width <= 8 (Kani); std sketch seeding not executed', T_VERUS + ' (leaf sketch functions: ' + T_KANI + ')'),
     'C12': _P(ALL_CACHES + ['K-PR'], 'model_checking', KANI_LEVEL_TEXT + '. C12: relational postcondition of every put-like operation (result variant <-> change of the retained set); PutResult Eq/Clone/Copy structural for K=u8,V=u16 (loop-free, complete).', KANI_NOTE, T_KANI),
     'C13': _P(ALL_CACHES + ['K-ITER'], 'model_checking', KANI_LEVEL_TEXT + '. C13: postcondition "view unchanged" (order, values, capacities, p, estimator state) for every read-only operation; equal views give equal futures because every other contract is a function of the view.', KANI_NOTE + '; Debug::fmt not covered', T_KANI),
     'C14': _P(['K-ITER', 'K-2Q', 'K-ARC'], 'model_checking', KANI_LEVEL_TEXT + '. C14: iterator contracts with ghost cursors over the view under an arbitrary next/next_back schedule of len()+2 steps, for all ten iterator types; per-list accessor families of 2Q/ARC hand out the right list.', KANI_NOTE, T_KANI),
